@@ -28,9 +28,10 @@ BASE = {
     "nontrivial": nontrivial,
     "rule": "behaviours = one per transition of the graph (mask, bits allocated) of I_Marks over every 8-bit pattern placed at "
             "shifts 0/8/16/24 (quick: 6-bit patterns at 0/13/24, thinned by seed) and 11 structured 32-bit masks (0, single bits, "
-            "all ones, alternating, halves, ...), operations NextSingleBitMark and NextBlockBitsMark(0,1,2,3,40); for every mask the "
+            "all ones, alternating, halves, ...), operations NextSingleBitMark and NextBlockBitsMark(0,1,2,3,40); for every random mask and every sixth TLC behaviour the "
             "driver maps all numbers below min(2^popcount+2, 40), the boundary numbers 2^popcount-1, 2^popcount, 2^popcount+1, "
-            "2^31, 2^32-1 and random ones to marks and back, and maps sub-masks and marks with a stray bit to numbers; seeded random "
+            "2^31, 2^32-1 and random ones to marks and back, and maps sub-masks and marks with a stray bit to numbers (the other "
+            "behaviours ask the boundary numbers only); seeded random "
             "32-bit masks (sparse, dense, runs, Felix-like 0xffff0000>>k) with random allocation sequences into exhaustion; "
             "non-trivial = mask of >= 2 bits driven to exhaustion with a successful round trip of a non-zero number",
     "assumptions": ["numbers are in 0 .. 2^32-1 (MapNumberToMark takes an int and truncates it to uint32; larger and negative "
@@ -56,8 +57,8 @@ def run(ctx):
     D = {"workers": 4, "heap": "4g"}
     P = dict(BASE, design=[dict(D, module="I_Marks", cfg="MC_I_Marks_quick.cfg", thorough_cfg="MC_I_Marks.cfg")],
              gen={"module": "Gen_Marks", "cfg": "Gen_cover_q.cfg", "thorough_cfg": "Gen_cover.cfg", "workers": 4,
-                  "max": 400, "thorough_max": 30000, "thorough_timeout": 1200},
-             n_random=(120, 5000))
+                  "max": 400, "thorough_max": 12000, "thorough_timeout": 1200},
+             n_random=(120, 2500))
     pipeline.standard_check(ctx, P)
     if not ctx.violations:
         drift(ctx, 1)
